@@ -237,6 +237,17 @@ def gen_wait_spec(rng: random.Random) -> dict:
                         [["wait", wty, reqk, timeout, rng.choice(["per", "per", "w01"] if also else ["w01", "w02", "per"]), rng.choice([None, 2]),
                           rng.choice(["swallow", "raise"])]] + ([["gate"]] if also and rng.random() < 0.5 else []) +
                         [["ret", rng.choice(["6", "stop", "none"])]]}
+    if not also and rng.random() < 0.3:
+        # two waits in sequence in one step body (distinct waiter ids): the first is consumed, the second suspends,
+        # and the replay runs through the first again
+        wty2 = 11 if wty == 3 else 3
+        waiter["script"] = [a for a in waiter["script"] if a[0] != "ret"]
+        waiter["script"].append(["wait", wty2, rng.choice([None, 1]), timeout, "w03", None, "swallow"])
+        waiter["script"].append(["ret", rng.choice(["6", "stop", "none"])])
+        for a in waiter["script"]:
+            if a[0] == "wait" and a[4] == "per":
+                a[4] = "w01"
+        waiter["nw"] = 1
     other = {"name": "s04", "accepts": [6, 3] if rng.random() < 0.3 else [6], "nw": 1, "retry": None,
              "script": [["ret", rng.choice(["stop", "none"])]]}
     start = {"name": "s00", "accepts": [0], "nw": 1, "retry": None,
@@ -245,7 +256,7 @@ def gen_wait_spec(rng: random.Random) -> dict:
     rng.shuffle(steps)
     ext = []
     for _ in range(rng.randint(0, 4)):
-        ext.append({"op": "send", "ty": rng.choice([wty, wty, 3, 11, 6]), "k": rng.choice([None, 1, 2]),
+        ext.append({"op": "send", "ty": rng.choice([wty, wty, 3, 11, 11, 3, 6]), "k": rng.choice([None, 1, 2]),
                     "step": rng.choice([None, None, None, "s02", "s04"]), "after_quiet": rng.randint(0, 4)})
     if rng.random() < 0.2:
         ext.append({"op": "snapshot", "after_quiet": rng.randint(0, 4)})
